@@ -166,7 +166,55 @@ def live_patterns():
     thou = [d for d in DT_Var.thousands_commas.__defaults__ if hasattr(d, '__self__') and hasattr(d.__self__, 'pattern')]
     if thou:
         out['DT_Var.thousands_commas.thou'] = (thou[0].__self__, 'search')
+    # every OTHER compiled pattern reachable from the package's modules (module globals, class attributes, function defaults,
+    # bound pattern methods): a pattern introduced by a later change is analysed without touching this harness
+    known = {id(v[0]) for v in out.values()}
+    for name, rx in sorted(discover_patterns().items()):
+        if id(rx) not in known:
+            known.add(id(rx))
+            out['found.' + name] = (rx, 'search')
     return out
+
+
+def _as_pattern(v):
+    if isinstance(v, re.Pattern):
+        return v
+    s_ = getattr(v, '__self__', None)
+    if isinstance(s_, re.Pattern):
+        return s_
+    return None
+
+
+def discover_patterns():
+    import sys
+    import types
+    found = {}
+
+    def note(name, v):
+        rx = _as_pattern(v)
+        if rx is not None and isinstance(rx.pattern, str):
+            found.setdefault(name, rx)
+
+    def scan_func(prefix, f):
+        for i, d in enumerate(getattr(f, '__defaults__', None) or ()):
+            note('%s.default%d' % (prefix, i), d)
+        for k, d in (getattr(f, '__kwdefaults__', None) or {}).items():
+            note('%s.%s' % (prefix, k), d)
+    for mname, mod in sorted(sys.modules.items()):
+        if mod is None or not (mname.startswith('DocumentTemplate') or mname.startswith('TreeDisplay')) or '.tests' in mname:
+            continue
+        short = mname.split('.')[-1]
+        for k, v in sorted(vars(mod).items()):
+            note('%s.%s' % (short, k), v)
+            if isinstance(v, types.FunctionType) and v.__module__ == mname:
+                scan_func('%s.%s' % (short, k), v)
+            elif isinstance(v, type) and v.__module__ == mname:
+                for ak, av in sorted(vars(v).items()):
+                    note('%s.%s.%s' % (short, k, ak), av)
+                    f = getattr(av, '__func__', av)
+                    if isinstance(f, types.FunctionType):
+                        scan_func('%s.%s.%s' % (short, k, ak), f)
+    return found
 
 
 def class_alphabet():
